@@ -74,8 +74,8 @@ def walk(ctx, module, cfg, plan, n, depth, deep, tag, col, selftest=False):
     ctx.note("%s: %d queries x %d index contents, %d cursor-graph edges over %d denotations; %d cases, depth %d%s" % (
         tag, len(model.queries), len(model.indices), model.edges, len(model.graph), len(cases), depth,
         (" (depth %d for one index content in %d)" % (deep[1], deep[0])) if deep else ""))
-    vs = ctx.run_cases(binary, "walk", cases, timeout_ms=120000, name="walk-" + tag)
-    col.absorb(vs, cases, model)
+    vs = ctx.run_cases(binary, "walk", cases, timeout_ms=300000, name="walk-" + tag)
+    col.absorb(vs, cases, model, binary=binary)
     for ik in model.indices:
         for qi in range(len(model.queries)):
             ctx.distinct_cases.add((tag, ik, qi))
@@ -84,9 +84,9 @@ def walk(ctx, module, cfg, plan, n, depth, deep, tag, col, selftest=False):
         probe = dict(cases[len(cases) // 2])
         probe["id"] = 0
         probe["corrupt"] = 1
-        pv = ctx.run_cases(binary, "walk", [probe], workers=1, name="selftest-" + tag)
-        if pv[0].get("ok"):
-            raise Inconclusive("self-test: a falsified expectation was not noticed by the adapter")
+        pv = ctx.run_cases(binary, "walk", [probe], workers=1, name="selftest-" + tag, timeout_ms=600000)
+        if pv[0].get("ok") or not isinstance(pv[0].get("obs"), list):
+            raise Inconclusive("self-test: a falsified expectation was not noticed by the adapter: %r" % (pv[0].get("key"),))
         ctx.note("self-test: falsified expectation rejected (%s)" % pv[0].get("key"))
     return model, cases
 
